@@ -90,7 +90,10 @@ def algebraic_solves(ck, prog, tier):
             bad = None
             for rep in range(2):
                 x = SArr("x", n, gen=lambda j: dag.atom("rhs_%d" % j))
-                t1, t2 = SArr("t1", n, zero=True), SArr("t2", n, zero=True)
+                # work buffers arrive with arbitrary contents (callers reuse them across lines and solvers): a read of an
+                # element the solve has not written itself makes the result depend on these atoms, and A x == b fails
+                t1 = SArr("t1", n, gen=lambda j, rep=rep: dag.atom("stale_work1_%d_%d" % (rep, j)))
+                t2 = SArr("t2", n, gen=lambda j, rep=rep: dag.atom("stale_work2_%d_%d" % (rep, j)))
                 from gmg.conc import PtrInto
                 try:
                     it.call_function(solve, o, [PtrInto(x, 0), PtrInto(t1, 0), PtrInto(t2, 0)])
